@@ -14,7 +14,13 @@ package httpserver
 //     connection: every answered client can send another request on the same connection and is
 //     answered again (EOF/reset = violation; no answer within the bound = inconclusive);
 //   * liveness (initial fill, use of grown capacity, re-use after close): bounded wait, expiry =
-//     VF-INCONCLUSIVE.
+//     VF-INCONCLUSIVE - unless it can be PROVEN that waiting is pointless (vfC17SrvCapNotInForce): in one
+//     stop-the-world snapshot every runtime's event loop is idle (all reloads processed), nobody is
+//     inside SetMaxConnection/SetMaxCount (no change being applied), the acceptor waits for a permit,
+//     and fewer net/http connection goroutines exist in the whole process than the configured cap.
+//     Every accepted connection has such a goroutine until after its permit went back, so permits are
+//     free and the acceptor would have got one: the configured maxConnections is not what the
+//     listener enforces. A violation without a clock verdict.
 // The exact stable-epoch and exact-capacity checks live in pkg/util/limitlistener (c17_ll_test.go,
 // c17_http_test.go).
 
@@ -25,6 +31,7 @@ import (
 	"net"
 	"net/http"
 	"os"
+	goruntime "runtime"
 	"strings"
 	"sync"
 	"sync/atomic"
@@ -72,6 +79,83 @@ func vfC17SrvState(hs *HTTPServer) string {
 		return fmt.Sprint(s.State)
 	}
 	return "?"
+}
+
+// vfC17SrvCapNotInForce: see the file comment. "" = no proof.
+func vfC17SrvCapNotInForce(capNow int) string {
+	var buf []byte
+	for size := 1 << 20; ; size *= 8 {
+		buf = make([]byte, size)
+		if n := goruntime.Stack(buf, true); n < size || size >= 1<<28 {
+			buf = buf[:n]
+			break
+		}
+	}
+	fsms, acceptors, serving := 0, 0, 0
+	for _, g := range strings.Split(string(buf), "\n\n") {
+		lines := strings.Split(g, "\n")
+		head := lines[0]
+		var isFsm, isAccept, inSem, isServe bool
+		for _, l := range lines[1:] {
+			if strings.HasPrefix(l, "\t") || strings.HasPrefix(l, "created by ") {
+				continue
+			}
+			switch {
+			case strings.Contains(l, "/pkg/util/sem.(*Semaphore).SetMaxCount"), strings.Contains(l, "/limitlistener.(*LimitListener).SetMaxConnection("), strings.Contains(l, "/httpserver.(*runtime).reload("), strings.Contains(l, "/httpserver.(*runtime).startServer("):
+				return "" // a capacity change (or a restart) is being applied
+			case strings.Contains(l, "/httpserver.(*runtime).fsm("):
+				isFsm = true
+			case strings.Contains(l, "/limitlistener.(*LimitListener).Accept("):
+				isAccept = true
+			case strings.Contains(l, "/pkg/util/sem.(*Semaphore).Acquire"), strings.Contains(l, "x/sync/semaphore.(*Weighted).Acquire("):
+				inSem = true
+			case strings.HasPrefix(l, "net/http.(*conn).serve("):
+				isServe = true
+			}
+		}
+		switch {
+		case isFsm:
+			if !strings.Contains(head, "[chan receive") {
+				return "" // an event is being handled / about to be
+			}
+			fsms++
+		case isAccept:
+			if !inSem || !strings.Contains(head, "[select") {
+				return "" // an acceptor that is not waiting for a permit (or has just been given one)
+			}
+			acceptors++
+		case isServe:
+			serving++
+		}
+	}
+	if fsms == 0 || acceptors == 0 || serving >= capNow {
+		return ""
+	}
+	return fmt.Sprintf("every HTTPServer event loop in the process is idle (all reloads processed), no goroutine is inside SetMaxConnection/SetMaxCount, the acceptor waits for a permit of the connection semaphore - and only %d connection goroutines (net/http conn.serve) exist, configured maxConnections is %d", serving, capNow)
+}
+
+type vfC17SrvPoller struct {
+	start time.Time
+	n     int
+}
+
+func (p *vfC17SrvPoller) due() bool {
+	if p.start.IsZero() {
+		p.start = time.Now()
+		return false
+	}
+	at := time.Duration(p.n-1) * time.Second
+	switch p.n {
+	case 0:
+		at = 10 * time.Millisecond
+	case 1:
+		at = 200 * time.Millisecond
+	}
+	if time.Since(p.start) < at {
+		return false
+	}
+	p.n++
+	return true
 }
 
 type vfC17SrvClient struct {
@@ -364,13 +448,25 @@ func TestVerifC17HTTPServerObject(t *testing.T) {
 				}()
 			}
 		}
+		proveCap := 0 // >0: the wait is for connections to be served up to this (configured) cap
 		waitFor := func(pred func() bool) bool {
 			deadline := time.Now().Add(vfC17SrvWait)
-			tm := time.AfterFunc(vfC17SrvWait+100*time.Millisecond, func() { r.mu.Lock(); r.cond.Broadcast(); r.mu.Unlock() })
-			defer tm.Stop()
+			wake := func() { r.mu.Lock(); r.cond.Broadcast(); r.mu.Unlock() }
+			tm := time.AfterFunc(vfC17SrvWait+100*time.Millisecond, wake)
+			t1, t2, t3 := time.AfterFunc(11*time.Millisecond, wake), time.AfterFunc(201*time.Millisecond, wake), time.AfterFunc(1001*time.Millisecond, wake)
+			defer func() { tm.Stop(); t1.Stop(); t2.Stop(); t3.Stop() }()
+			var poll vfC17SrvPoller
+			poll.due()
 			r.mu.Lock()
 			defer r.mu.Unlock()
 			for !pred() && len(r.viols) == 0 {
+				if proveCap > 0 && poll.due() {
+					if proof := vfC17SrvCapNotInForce(proveCap); proof != "" {
+						r.logf("PROOF: %s", proof)
+						r.viols = append(r.viols, [2]string{"configured-maxConnections-not-in-force: acceptor waits for a permit although fewer connections than the cap are open and no change is in progress", fmt.Sprintf("%d clients answered and open, more are waiting to be served; %s", r.k, proof)})
+						return true
+					}
+				}
 				if time.Now().After(deadline) {
 					return false
 				}
@@ -417,9 +513,11 @@ func TestVerifC17HTTPServerObject(t *testing.T) {
 
 		heldBack, grew, shrankBelow, reused, everShrunk := false, false, false, false, false
 		dial(cap0 + extra)
+		proveCap = cap0
 		if inconclusive == "" && !waitFor(func() bool { return r.k >= cap0 }) {
 			inconclusive = "initial connections not served"
 		}
+		proveCap = 0
 		r.mu.Lock()
 		if _, p := liveServedOrPending(); p > 0 && r.k == cap0 {
 			heldBack = true
@@ -496,9 +594,11 @@ func TestVerifC17HTTPServerObject(t *testing.T) {
 			r.mu.Unlock()
 			if inconclusive == "" && pend > 0 && !everShrunk {
 				target := curCap
+				proveCap = curCap
 				if !waitFor(func() bool { _, p := liveServedOrPending(); return r.k >= target || p == 0 }) {
 					inconclusive = "pending connection not served although fewer than maxConnections are open (no shrink was ever issued)"
 				}
+				proveCap = 0
 				r.mu.Lock()
 				if r.k > before {
 					reused = true
